@@ -21,7 +21,7 @@ def run(ctx):
     rng = vlib.Rng(ctx.seed)
     pc.regen_units(ctx, ['Rand'])
     ctx.prove(['Librfn.Props.C17', 'LibrfnMath.Period'], REQUIRED)
-    exe, fast = pc.build(ctx)
+    exe, fast = pc.build(ctx, 'PURE_RAND')
     states = {1, 2, P - 1, P - 2, 65535, 65536, 65537, 0x7fff, 0x8000, 0xffff0000 & (P - 1), 127773, 127774, 16807, 1 << 30, (1 << 30) - 1}
     n = 2000 if ctx.tier == 'quick' else 50000
     while len(states) < n:
@@ -31,7 +31,7 @@ def run(ctx):
     for _ in range(200):
         states.add(s); s = 16807 * s % P
     states = sorted(states)
-    c_out, lean_out = pc.differential(ctx, exe, [f'rand31 {s}' for s in states])
+    c_out, lean_out = pc.differential(ctx, exe, [f'rand31 {s}' for s in states], 'pure-rand')
     for i, s in enumerate(states):
         want = 16807 * s % P
         ctx.count(s)
@@ -63,7 +63,7 @@ def replay(ctx, path):
         if not m:
             print('replay names a broken obligation:', r.get('obligation')); return 1
         s = int(m.group(1))
-    exe, _ = pc.build(ctx)
+    exe, _ = pc.build(ctx, 'PURE_RAND')
     rc, out, err = vlib.sh([exe, 'lines'], input=f'rand31 {s}\n')
     want = 16807 * s % P
     print(f'rand31_r({s}) -> {out.strip()} expected {want} {want}')
